@@ -1,6 +1,7 @@
 import FluteModel.Lemmas.AL
 import FluteModel.Spec.SoloSession
 /- per-key decomposition of the MultiReceiver model (keyed fold) -/
+set_option linter.unusedSimpArgs false
 namespace Flute.MultiRecv
 open Flute Flute.TsiFilter Flute.Spec.Solo
 
@@ -30,6 +31,8 @@ def ctlStep (c : Ctl) : Op π → Ctl
     | .error _ => c
   | .removeAll ep => { c with filter := TsiFilter.removeEndpointBypass c.filter ep }
   | .setFiltering b => { c with filtering := b }
+  | .addListener => c
+  | .removeListener _ => c
   | .drop => c
 
 /-- what key `k` sees of one operation -/
@@ -76,6 +79,8 @@ theorem ctl_step (M : Machine σ π Out) (s : State σ Out) (op : Op π) :
     split <;> simp_all
   | removeAll ep => rfl
   | setFiltering b => rfl
+  | addListener => rfl
+  | removeListener id => rfl
   | drop => rfl
 
 /-- generic list fact behind cleanup and drop: on unique keys, selecting by value, mapping to records that
@@ -139,6 +144,8 @@ theorem nodup_step (M : Machine σ π Out) (s : State σ Out) (op : Op π) (hn :
   | addAll ep => simp only [step]; split <;> exact hn
   | removeAll ep => exact hn
   | setFiltering b => exact hn
+  | addListener => exact hn
+  | removeListener id => exact hn
   | drop => simp [step, drop, AL.keys]
 
 theorem nodup_run (M : Machine σ π Out) (ops : List (Op π)) (s : State σ Out) (hn : (AL.keys s.table).Nodup) :
@@ -240,6 +247,8 @@ theorem localOf_step (M : Machine σ π Out) (s : State σ Out) (op : Op π) (k 
   | addAll ep => simp only [step, view]; split <;> rfl
   | removeAll ep => rfl
   | setFiltering b => rfl
+  | addListener => rfl
+  | removeListener id => rfl
   | drop =>
     simp only [step, drop, view, localOf, List.filter_append]
     have hev := filter_map_key s.table (fun _ => true) (fun k' _ => Event.closed k')
@@ -381,6 +390,8 @@ theorem keyInv_step (M : Machine σ π Out) (s : State σ Out) (op : Op π)
   | addAll ep => simp only [step]; split <;> exact ⟨h1, h2⟩
   | removeAll ep => exact ⟨h1, h2⟩
   | setFiltering b => exact ⟨h1, h2⟩
+  | addListener => exact ⟨h1, h2⟩
+  | removeListener id => exact ⟨h1, h2⟩
   | drop =>
     simp only [step, drop]
     exact ⟨by intro k se h; simp at h, h2⟩
